@@ -52,7 +52,12 @@ func main() {
 	repo := flag.String("repo", "/repo", "repository root")
 	verif := flag.String("verif", "/verif", "verif root")
 	out := flag.String("out", "", "output dir")
+	target := flag.String("target", "", "directory the build sees (overlay keys); default = -repo. When it differs from -repo every source file of the instrumented packages is overlaid, so the build sees exactly the -repo tree")
 	flag.Parse()
+	if *target == "" {
+		*target = *repo
+	}
+	shadow := *target != *repo
 	if *out == "" {
 		fatal("need -out")
 	}
@@ -85,12 +90,23 @@ func main() {
 				fatal("rewrite %s: %v", src, err)
 			}
 			notes = append(notes, n...)
-			if changed {
+			if changed || shadow {
 				dst := filepath.Join(odir, name)
 				if err := os.WriteFile(dst, nb, 0o666); err != nil {
 					fatal("%v", err)
 				}
-				overlay[src] = dst
+				overlay[filepath.Join(*target, p.rel, name)] = dst
+			}
+		}
+		if shadow {
+			// files that exist only in the target tree must not be compiled
+			if tents, err := os.ReadDir(filepath.Join(*target, p.rel)); err == nil {
+				for _, e := range tents {
+					n := e.Name()
+					if strings.HasSuffix(n, ".go") && !strings.HasSuffix(n, "_test.go") && !have[n] {
+						overlay[filepath.Join(*target, p.rel, n)] = ""
+					}
+				}
 			}
 		}
 		for _, h := range p.hooks {
@@ -109,7 +125,7 @@ func main() {
 				if err := os.WriteFile(dst, nb, 0o666); err != nil {
 					fatal("%v", err)
 				}
-				overlay[filepath.Join(dir, h)] = dst
+				overlay[filepath.Join(*target, p.rel, h)] = dst
 				notes = append(notes, "injected "+p.rel+"/"+h)
 			}
 		}
